@@ -39,10 +39,6 @@ Definition cubic (c : row4) (T : R) : R :=
 Definition jcen (jde : R) : R := (jde - 2451545) / 36525.
 
 (* mean equinox of the date: both arguments are the 6-row table [L, a, e, i, node, perihelion] *)
-(* the module constant JDE2000 = Epoch(2000, 1, 1.5) is an hypothesis here (its evaluation through the
-   whole constructor in real arithmetic takes minutes: C07_jde2000.v, thorough tier, discharges it) *)
-Definition JDE2000_is_2451545 : Prop := g_JDE2000 Rops = VObj cEpoch [VFloat 2451545].
-
 Theorem orbital_elements_6 jde (rl ra re ri rn rp : row4) :
   JDE2000_is_2451545 ->
   let tbl := VList [enc_row rl; enc_row ra; enc_row re; enc_row ri; enc_row rn; enc_row rp] in
